@@ -1,20 +1,19 @@
-\* quick exhaustive cfg (DESIGN C05/C10 calibrated bounds): 3 symmetric members, t=2, MaxDE=2, MaxAttempt=2,
-\* Period=1, 2 signings, <=3 nonce pairs per member, h<=5
+\* thorough facet: signings created inside the end-block by resolving oracle requests (before aggregation / expiry / retries of the same block); h<=4
 CONSTANTS
   Member = {m1, m2, m3}
   Stranger = {}
-  T = 2
+  TSet = {2}
   MaxSig = 2
   MaxSerial = 3
   MaxDESet = {2}
   MaxAttSet = {2}
   PeriodSet = {1}
-  PenaltySet = {0}
+  PenaltySet = {1}
   KSet = {1, 2}
-  PreSet = {0}
-  MaxH = 5
+  PreSet = {0, 1}
+  MaxH = 4
 INIT Init
-NEXT Next
+NEXT NextMC
 SYMMETRY Sym
 VIEW View
 CONSTRAINT Bound
